@@ -122,8 +122,27 @@ class Types:
     def cast(self, qt):
         return self.decl(qt, '')[0].strip()
 
+def strip_enable_if(t):
+    """'typename std::enable_if<COND, T>::type' -> 'T' (an instantiated function was selected, so COND held)"""
+    while True:
+        i = t.find('std::enable_if<')
+        if i < 0: return t
+        j = i + len('std::enable_if<'); d = 1; k = j; lastcomma = None
+        while k < len(t) and d > 0:
+            if t[k] in '<(': d += 1
+            elif t[k] in '>)': d -= 1
+            elif t[k] == ',' and d == 1: lastcomma = k
+            k += 1
+        inner_t = t[lastcomma + 1:k - 1].strip() if lastcomma else 'void'
+        rest = t[k:]
+        if rest.startswith('::type'): rest = rest[len('::type'):]
+        pre = t[:i]
+        pre = re.sub(r'typename\s+$', '', pre)
+        t = pre + inner_t + rest
+
 def split_fn_type(fn_type):
     """'R (A, B) const noexcept' -> (R, [A,B], trailing)"""
+    fn_type = strip_enable_if(fn_type)
     depth = 0; start = None
     for i, ch in enumerate(fn_type):
         if ch == '(':
@@ -681,6 +700,7 @@ class Emitter:
             rt = self.qt(n)
             if rt == 'void' or n.get('valueCategory') == 'lvalue' and self.stmt_level:
                 self.post_call_check = True
+                if n.get('valueCategory') == 'lvalue' and self.callee_returns_ref(n): return '(*%s)' % s
                 return s
             if n.get('valueCategory') == 'lvalue':
                 t = self.newtmp()
@@ -907,6 +927,7 @@ class Emitter:
             raise Unsupported('try/catch')
         else:
             s = self.full_expr(n)
+            if s.startswith('(*') and s.endswith(')') and self.balanced(s[2:-1]): s = s[2:-1]     # discarded lvalue result of a call: no dereference
             self.flush(s + ';')
     def ends_with_jump(self, comp):
         inner = comp.get('inner', [])
